@@ -26,6 +26,11 @@ META = {
         "design_ref": "DESIGN.md §4 C16",
         "note": "gzip/tar byte streams cut at gzip.NewReader / tar.Reader.Next / io.Copy (class S; native replay builds a real hand-written tar.gz); os.Lstat cut to 'nothing exists' (fresh destination). Outside the claim: symlinks already present in the destination, writeLock/--untar file writes, decompression at byte level, Extract's os.* calls. Bounds: names ≤6 (quick) / ≤8 (thorough) bytes; ≤2/≤3 entries, sizes and limits ≤40.",
     },
+    "C18": {
+        "text": "Bounded symbolic model checking of the real loadIndex / SortEntries / ChartVersions.Less / IndexFile.Get with the semver library's own Compare on symbolic version numbers: for every list of entries (valid, null, metadata-less, invalid version, prerelease) in every order and every assignment of version digits, only valid entries remain, they are sorted newest first, Get(\"\") is the highest stable version, Get(v) the identical string if present, Get(>=v) the highest satisfying release. Found (and the repo now fixes) the null-entry crash.",
+        "design_ref": "DESIGN.md §4 C18",
+        "note": "Cuts (class S): jsonOrYamlUnmarshal -> harness-built IndexFile (native replay: real JSON decoder); semver.NewVersion -> parser of the restricted grammar D.D.D[-rcN] with symbolic digits; NewConstraint/Check -> the three query forms used (\"*\", exact, >=V), written from the library's documented rules and cross-checked by native replays. Semver parsing and general constraint evaluation are outside the claim; resolver.Resolve and registry tag matching not yet covered. Bounds: <=2 (quick) / <=3 (thorough) entries, digits 0-3 / 0-9.",
+    },
     "C20": {
         "text": "Implicit no-panic/no-deadlock/step-bound assertions of the engine on every path of the strvals entry points fed arbitrary symbolic bytes against destinations of every shape (scalar/list/map/nil under the addressed key).",
         "design_ref": "DESIGN.md §4 C20",
@@ -34,4 +39,4 @@ META = {
 }
 
 _NYB = "harness not built yet in this session (design in DESIGN.md §4); not claimed until its check runs clean"
-NOT_APPLICABLE = {p: _NYB for p in ["C02", "C03", "C05", "C06", "C07", "C09", "C11", "C12", "C13", "C14", "C15", "C17", "C18", "C19"]}
+NOT_APPLICABLE = {p: _NYB for p in ["C02", "C03", "C05", "C06", "C07", "C09", "C11", "C12", "C13", "C14", "C15", "C17", "C19"]}
